@@ -2,6 +2,7 @@
 // stdin : {"items":[{"src":"x = 'a\\u2028';", "mode":"str"|"key"|"tag"|"num"|"big"|"re", "goal":"script"|"module"}]}
 // stdout: {"results":[{"ok":true,"val":"0061.2028","compiles":true} | {"ok":false,"err":"..."}]}
 //   str/key : UTF-16 code units (hex) of x / of the first own key of x
+//   dir     : UTF-16 code units of the script's completion value + '|strict' / '|sloppy' (variable s of the program)
 //   tag     : cooked units "/" raw units of the first template string seen by the tag function
 //   num     : the 64 bits of the float (hex) — Object.is-precise; big: decimal digits; re: source units "/" flags
 // Run with: node --experimental-vm-modules --no-warnings literal_eval.js
@@ -33,9 +34,13 @@ function evalOne(item) {
     res.compiles = true;
   } catch (e) { res.compiles = false; res.ok = false; res.err = 'compile: ' + String(e && e.message); return res; }
   try {
-    vm.runInContext(item.src, ctx);
+    const completion = vm.runInContext(item.src, ctx);
     const x = sandbox.x;
     switch (item.mode) {
+      // dir: `'...'; var s = (function () { return this === undefined; })();` — the completion value of the script is the
+      // value of the directive's string literal; s tells whether the code after the directive prologue is strict
+      case 'dir': if (typeof completion !== 'string') throw new Error('completion value is not a string: ' + typeof completion);
+        res.val = hex(completion) + (sandbox.s === true ? '|strict' : '|sloppy'); break;
       case 'str': if (typeof x !== 'string') throw new Error('not a string: ' + typeof x); res.val = hex(x); break;
       case 'key': { const k = Object.keys(x); if (k.length !== 1) throw new Error('keys: ' + k.length); res.val = hex(k[0]); break; }
       case 'tag': res.val = hex(x.c) + '/' + hex(x.r); break;
